@@ -33,7 +33,8 @@ PRE = ("From PV Require Import Plugin.Model Plugin.Spec.\nFrom Coq Require Impor
 
 # Defects confirmed on the current tree (reported; printed as KNOWN-FINDING, never silently skipped).
 # Repaired since and now VIOLATIONS if they come back: non-ASCII folding and 63-byte truncation (3943b22), the replay of a
-# rejected Parse through the prepared-statement map (0acefb2), the intercept schema panic (b98e532), the stale Intercept (a7d476c).
+# rejected Parse through the prepared-statement map (0acefb2), the intercept schema panic (b98e532), the stale Intercept (a7d476c),
+# a session judged by the settings of its previous checkout after a RELOAD (c3cef0c).
 KNOWN = {
     "only": "C19-only-keyword: `SELECT * FROM ONLY secret` / `DELETE FROM ONLY secret` / `UPDATE ONLY secret ..` pass table_access "
             "(sqlparser reads ONLY as the table name and the listed table as its alias; PostgreSQL reads the listed table)",
@@ -367,7 +368,7 @@ def check_maxlen(run, bins, st):
 
 
 # ----------------------------------------------------------------------------- intercept
-CANON = ["select 1", "select current_database() as a, current_schemas(false) as b", "select current_database(), current_schema(), current_user",
+CANON = ["select datname from pg_database", "select 1", "select current_database() as a, current_schemas(false) as b", "select current_database(), current_schema(), current_user",
          "select version()", "select * from t where a = 'x'", "select a, b from public.t order by a limit 5", "show transaction_read_only"]
 TYPES = ["text", "int4", "bool", "oid", "anyarray", "numeric", "weird", "", "TEXT"]
 CELLS = ["", "x", "42", "${USER}", "${DATABASE}", "a${DATABASE}b${USER}c", "${USER}${USER}", "{public}", "${", "$ {USER}", "long " * 40, "t", "été"]
@@ -438,7 +439,8 @@ def gen_intercept_cases(rng, n):
         if rng.random() < 0.03:
             sql = rng.choice(["", ";", "  "])
         enabled = rng.random() < 0.9
-        ta = {"enabled": True, "tables": ["secret"]} if rng.random() < 0.5 else None
+        # listed tables overlap with the tables the intercepted queries read (intercept is consulted first); unsorted lists
+        ta = {"enabled": rng.random() < 0.9, "tables": rng.sample(["zeta", "secret", "t", "pg_database", "pg_user", "alpha"], rng.randint(1, 5))} if rng.random() < 0.6 else None
         plugins = {"intercept": {"enabled": enabled, "queries": rules}, "table_access": ta, "query_logger": None, "prewarmer": None}
         user = rng.choice(["postgres", "u", "", "${DATABASE}", "us er"])
         db = rng.choice(["db", "d", "", "${USER}"])
@@ -1031,7 +1033,8 @@ def wire_text(kind_id, parsed, v, want_tx=None, cur_tx=False):
     if v[0] == "Deny":
         return "SELECT %d FROM secret%d" % (v[1], v[1])
     if v[0] == "Intercept":
-        return "select %d as intercepted" % v[1]
+        # every other intercepted text names a table that the same section lists (intercept is consulted first)
+        return ("select %d as intercepted" % v[1]) if v[1] % 2 else ("select %d as intercepted from secret%d" % (v[1], v[1]))
     if want_tx is None or want_tx == cur_tx:
         # allowed statements come in two kinds: plain, and on a table that only the DECOY plugins section lists
         return ("SELECT %d" if kind_id % 2 else "SELECT %d FROM gonly%d") % ((kind_id,) if kind_id % 2 else (kind_id, kind_id))
@@ -1059,8 +1062,10 @@ def plugin_sections(mode, ops):
     need (secret<id>, 'select <id> as intercepted'); DECOY lists other tables and intercepts the plain allowed texts."""
     ids = sorted({m[1] for m in ops} | {m[3] for m in ops if m[0] == "MP"})
     icpt = sorted({v[1] for m in ops for v in [m[3] if m[0] == "MQ" else (m[5] if m[0] == "MP" else ("Allow",))] if v[0] == "Intercept"})
-    real = {"ta": (True, ["secret%d" % i for i in ids]), "ic": (True, {str(t): ("select %d as intercepted" % t, t) for t in icpt}) if icpt else None}
-    decoy = {"ta": (True, ["gonly%d" % i for i in ids]), "ic": (True, {"g%d" % k: ("SELECT %d" % k, GON + k) for k in ids if k % 2})}
+    # (lists are deliberately not sorted)
+    real = {"ta": (True, ["secret%d" % i for i in reversed(ids)]),
+            "ic": (True, {str(t): (wire_text(t, True, ("Intercept", t)), t) for t in icpt}) if icpt else None}
+    decoy = {"ta": (True, ["gonly%d" % i for i in ids[1::2] + ids[0::2]]), "ic": (True, {"g%d" % k: ("SELECT %d" % k, GON + k) for k in ids if k % 2})}
     if not decoy["ic"][1]:
         decoy["ic"] = None
     off = lambda sec: {"ta": (False, sec["ta"][1]), "ic": (False, sec["ic"][1]) if sec["ic"] else None}
@@ -1107,7 +1112,7 @@ def oracle(text, eff):
     ta_on, tables, ic_on, queries = eff
     if ic_on and text.lower().encode() in queries:
         k = int(re.search(r"\d+", text).group())
-        return ("Intercept", k if text.endswith("as intercepted") else GON + k)
+        return ("Intercept", k if " as intercepted" in text else GON + k)
     m = re.search(r"FROM (secret|gonly)(\d+)$", text)
     if ta_on and m and (m.group(1) + m.group(2)).encode() in tables:
         return ("Deny", int(m.group(2)) + (GON if m.group(1) == "gonly" else 0))
@@ -1222,8 +1227,8 @@ def build_wire_scenario(cfg, rows, prep):
         # a client of the OTHER pool: the same texts under that pool's effective section
         k0 = min(m[1] for m, _, _, _ in rows)
         steps.append({"op": "connect", "c": "b", "params": {"user": "u", "database": "db2"}, "password": "pw", "timeout_ms": 1500})
-        for t in ("SELECT %d FROM gonly%d" % (k0, k0), "SELECT %d FROM secret%d" % (k0, k0), "SELECT %d" % (k0 | 1), "select %d as intercepted" % k0):
-            v = oracle(t, prep["eff2"])
+        for t in prep["texts2"]:
+            v = prep["verdict2"][t]
             ours.add(t)
             steps += [{"op": "send", "c": "b", "msgs": [{"t": "Q", "sql": t}]}, {"op": "recv", "c": "b", "until": "Z", "timeout_ms": 2500}]
             if v[0] == "Allow":
@@ -1232,7 +1237,7 @@ def build_wire_scenario(cfg, rows, prep):
                 exp_b.append(("plugin_error" if v[0] == "Deny" else "intercept", v[1]))
     return ({"backends": [{"name": "b0"}], "toml": toml, "steps": steps},
             {"backend": exp_backend, "client": exp_client, "client_b": exp_b, "texts": ours, "ended": ended, "reply_ops": reply_ops,
-             "rejected_texts": {t for t in ours if oracle(t, prep["eff"]) != ("Allow",)} if cfg["parser_on"] else set()})
+             "rejected_texts": {t for t in ours if prep["verdict"].get(t, ("Allow",)) != ("Allow",)}})
 
 
 def pool_ok(m):
@@ -1283,9 +1288,27 @@ MODES_ON = ["pool", "global", "both", "two_pools", "global_off_pool_on", "two_po
 MODES_OFF = ["none", "both_pool_off"]
 
 
-def prepare_wire(seqs):
+def second_pool_texts(ops):
+    k0 = min(m[1] for m in ops)
+    return ["SELECT %d FROM gonly%d" % (k0, k0), "SELECT %d FROM secret%d" % (k0, k0), "SELECT %d" % (k0 | 1), "select %d as intercepted" % (k0 | 1),
+            "select %d as intercepted from secret%d" % (k0 & ~1 or 2, k0 & ~1 or 2)]
+
+
+def tag_of(text, kind):
+    """abstract verdict for one of OUR texts given the kind the Coq execute_plugins computed"""
+    if kind == 0:
+        return ("Allow",)
+    k = int(re.search(r"\d+", text).group())
+    if kind == 2:
+        return ("Intercept", k if " as intercepted" in text else GON + k)
+    m = re.search(r"FROM (secret|gonly)(\d+)$", text, re.I)
+    return ("Deny", int(m.group(2)) + (GON if m.group(1).lower() == "gonly" else 0)) if m else ("Deny", k)
+
+
+def prepare_wire(seqs, plugins_bin):
     """configuration dimension: which plugins sections exist (global / pool / both / second pool), and - by the Coq
-    definition [effective_plugins] - which one is in force for each pool; the verdict of every text follows from that."""
+    definition [effective_plugins] - which one is in force for each pool; the verdict of every text is then the Coq
+    [execute_plugins] on what the real sqlparser shows of that text (rendering, relations)."""
     preps = []
     for i, (c, ops, x) in enumerate(seqs):
         if x.get("mode"):
@@ -1294,20 +1317,40 @@ def prepare_wire(seqs):
             mode = "global" if c["plugins_on"] else "none"     # a pool-level section is refused when the pool's parser is off
         else:
             mode = MODES_ON[i % len(MODES_ON)] if c["plugins_on"] else MODES_OFF[i % len(MODES_OFF)]
-        preps.append({"mode": mode, "sections": plugin_sections(mode, ops), "base": base_texts(ops, x.get("texts"))})
-    exprs = ["(plugins_summary (effective_plugins %s %s), plugins_summary (effective_plugins %s %s))" %
-             (coq_section(p["sections"][0]), coq_section(p["sections"][1]), coq_section(p["sections"][0]), coq_section(p["sections"][2])) for p in preps]
-    vals = vlib.coq_eval("c19_wcfg", PRE, exprs, shard=40)
+        base = base_texts(ops, x.get("texts"))
+        preps.append({"mode": mode, "sections": plugin_sections(mode, ops), "base": base,
+                      "texts": sorted(set(base.values())), "texts2": second_pool_texts(ops) if mode.startswith("two_pools") else []})
+    # what sqlparser shows of every distinct text (no plugins involved)
+    alltexts = sorted({t for p in preps for t in p["texts"] + p["texts2"]})
+    shown = {}
+    res = RL.run_router(plugins_bin, [{"settings": {"parser": True, "plugins": None}, "steps": [{"proto": "Q", "sql": t}]} for t in alltexts])
+    for t, r in zip(alltexts, res):
+        o = r["out"][0]
+        shown[t] = ("[" + "; ".join("mkStmt %s %s %s" % (vlib.coq_bytes(bytes.fromhex(z["norm"])), coq_names(names_from_json(z["explicit"])),
+                                                        coq_names(names_from_json(z["visited"]))) for z in o["stmts"]) + "]") if o.get("parse") == "ok" else None
+    U, D = vlib.coq_bytes(b"u"), vlib.coq_bytes(b"db0")
+
+    def kinds(eff, texts):
+        return "[" + "; ".join("pv_kind (execute_plugins %s %s %s %s)" % (eff, U, D, shown[t]) if shown[t] else "0" for t in texts) + "]"
+    exprs = ["let e := effective_plugins %s %s in let e2 := effective_plugins %s %s in (plugins_summary e, plugins_summary e2, %s, %s)" %
+             (coq_section(p["sections"][0]), coq_section(p["sections"][1]), coq_section(p["sections"][0]), coq_section(p["sections"][2]),
+              kinds("e", p["texts"]), kinds("e2", p["texts2"])) for p in preps]
+    vals = vlib.coq_eval("c19_wcfg", PRE, exprs, shard=20)
     out = []
     for (c, ops, x), p, v in zip(seqs, preps, vals):
-        e1, e2 = pcoq(v)
+        e1, e2, k1, k2 = pcoq(v)
         p["eff"], p["eff2"] = eff_of(e1), eff_of(e2)
+        p["verdict"] = {t: tag_of(t, k) for t, k in zip(p["texts"], k1)}
+        p["verdict2"] = {t: tag_of(t, k) for t, k in zip(p["texts2"], k2)}
+        # the generator's own reading of the sections (intercept first, then table_access) must agree with the model's
+        p["oracle_mismatch"] = [(t, p["verdict"][t], oracle(t, p["eff"])) for t in p["texts"] if shown[t] and p["verdict"][t] != oracle(t, p["eff"])] + \
+                               [(t, p["verdict2"][t], oracle(t, p["eff2"])) for t in p["texts2"] if shown[t] and p["verdict2"][t] != oracle(t, p["eff2"])]
         ops2 = []
         for m in ops:
             if m[0] == "MQ" and m[2]:
-                m = ("MQ", m[1], m[2], oracle(p["base"][("Q", m[1])], p["eff"]), m[4], m[5])
+                m = ("MQ", m[1], m[2], p["verdict"][p["base"][("Q", m[1])]], m[4], m[5])
             elif m[0] == "MP" and m[4]:
-                m = ("MP", m[1], m[2], m[3], m[4], oracle(p["base"][("P", m[3])], p["eff"]))
+                m = ("MP", m[1], m[2], m[3], m[4], p["verdict"][p["base"][("P", m[3])]])
             ops2.append(m)
         out.append((dict(c, plugins_on=p["eff"] is not None), ops2, x, p))
     return out
@@ -1315,14 +1358,14 @@ def prepare_wire(seqs):
 
 def check_wire(run, n, st):
     """the Coq machine and the real Client::handle on the same message sequences, over the wire"""
-    ok, blog, bins = vlib.cargo_build(["wire"])
+    ok, blog, bins = vlib.cargo_build(["wire", "plugins"])
     if not ok:
         run.violation("tie-broken", "wire harness does not build", {"correspondence": "wire harness build", "log": blog[-2000:]}, found_input=False)
         return 0
     from props import wirelib as W
     prod = product_sequences() + command_sequences()
     st["wire_product"] = len(prod)
-    seqs = prepare_wire([(dict(c), list(o), {}) for c, o in FIXED] + prod + [gen_wire_sequence(run.rng) for _ in range(n)])
+    seqs = prepare_wire([(dict(c), list(o), {}) for c, o in FIXED] + prod + [gen_wire_sequence(run.rng) for _ in range(n)], bins["plugins"])
     exprs = ["wrun [%s] %s init [%s]" % ("; ".join(str(k) for k in x.get("keep", [])), coq_cfg(c), "; ".join(coq_msg(m) for m in ops)) for c, ops, x, p in seqs]
     vals = vlib.coq_eval("c19_wire", WPRE, exprs, shard=20)
     scns, exps, metas = [], [], []
@@ -1380,6 +1423,13 @@ def check_wire(run, n, st):
                            "impl": {"backend": back, "client": groups, "client_b": groups_b, "rest": rest},
                            "model": {"backend": ex["backend"], "client": ex["client"], "client_b": ex["client_b"]}}, found_input=False)
         return len(scns)
+    for (c, ops, x, p) in seqs:
+        if p["oracle_mismatch"]:
+            t, vm, vo = p["oracle_mismatch"][0]
+            run.violation("tie-broken", "Coq execute_plugins judges %r as %s, the generator's reading of the sections (intercept first, then table_access) as %s" % (t, vm, vo),
+                          {"correspondence": "Plugin/Model.v execute_plugins vs props/c19.py oracle", "input": {"text": t, "sections": p["mode"]}, "model": str(vm), "oracle": str(vo)},
+                          found_input=False)
+            return len(scns)
     # model and implementation agree on every scenario.  Now the property itself on what was OBSERVED: a rejected text at
     # the server / rows for a batch that earned none are defects.
     for (c, ops, rows), ex, res in zip(metas, exps, results):
@@ -1416,6 +1466,133 @@ def check_wire(run, n, st):
     return len(scns)
 
 
+# ----------------------------------------------------------------------------- wire: a session that lives across a RELOAD
+RL_CFGS = {"A": None,
+           "B": '[plugins]\n[plugins.table_access]\nenabled = true\ntables = ["zz", "secret", "aa"]\n',
+           "C": '[plugins]\n[plugins.table_access]\nenabled = true\ntables = ["other"]\n',
+           "D": '[plugins]\n[plugins.table_access]\nenabled = true\ntables = ["secret"]\n[plugins.intercept]\nenabled = true\n'
+                '[plugins.intercept.queries.0]\nquery = "select 1 as intercepted from secret"\nschema = [["id", "int4"]]\nresult = [["3"]]\n',
+           "E": '[plugins]\n[plugins.table_access]\nenabled = false\ntables = ["secret"]\n'}
+RL_TAG = {"secret": 1, "other": 2, "icpt": 3}
+
+
+def rl_verdict(cfg, what):
+    if what == "icpt":
+        return ("Intercept", 3) if cfg == "D" else (("Deny", 1) if cfg == "B" else ("Allow",))
+    if what == "secret":
+        return ("Deny", 1) if cfg in ("B", "D") else ("Allow",)
+    if what == "other":
+        return ("Deny", 2) if cfg == "C" else ("Allow",)
+    return ("Allow",)
+
+
+def rl_text(i, what):
+    return {"secret": "SELECT %d FROM secret", "other": "SELECT %d FROM other", "plain": "SELECT %d", "begin": "BEGIN /*c19:%d*/",
+            "commit": "COMMIT /*c19:%d*/"}[what] % i if what != "icpt" else "select 1 as intercepted from secret"
+
+
+def reload_programs(rng, quick):
+    kinds = [("Q", "secret"), ("Q", "other"), ("B", "secret"), ("B", "other"), ("Q", "plain"), ("Q", "begin")]
+    out = []
+    for old, new in (("A", "B"), ("B", "A"), ("B", "C"), ("C", "B"), ("A", "D"), ("D", "A"), ("B", "E"), ("E", "B")):
+        ks = kinds + ([("Q", "icpt"), ("B", "icpt")] if "D" in (old, new) else [])
+        progs = [[k] for k in ks] + [[a, b] for a in ks for b in ks]
+        progs += [[rng.choice(ks) for _ in range(rng.randint(3, 5))] for _ in range(10 if quick else 150)]
+        for pr in progs:
+            pr = list(pr)
+            if any(k[1] == "begin" for k in pr):
+                pr.append(("Q", "commit"))
+            out.append((old, new, pr))
+    return out
+
+
+def reload_observe(res, texts):
+    """per statement sent after the reload: ('fwd',) | ('deny', table tag) | ('icpt', 3) | ('lost',)"""
+    seen = {e["detail"].get("sql") for e in res.get("events", []) if e.get("ev") == "msg" and e.get("tag") in ("Q", "P")}
+    groups, cur = [], []
+    for e in res.get("events", []):
+        if e.get("ev") == "recv" and e.get("who") == "a":
+            for f in e["frames"]:
+                cur.append(f)
+                if f.get("t") == "Z":
+                    groups.append(cur); cur = []
+    obs = []
+    for t, g in zip(texts, groups[1:]):
+        err = [f["fields"].get("M", "") for f in g if f.get("t") == "E" and f.get("fields", {}).get("C") == "58000"]
+        m = re.match(r'^permission for table "(\w+)" denied$', err[0]) if err else None
+        if m:
+            obs.append(("deny", RL_TAG.get(m.group(1), 0)))
+        elif [f.get("t") for f in g] == ["T", "D", "C", "Z"] and g[0].get("names") == ["id"] and g[1].get("cols") == ["3"]:
+            obs.append(("icpt", 3))
+        else:
+            obs.append(("fwd",) if t in seen else ("lost",))
+    return obs
+
+
+def check_reload(run, st):
+    """old session, RELOAD (plugin enabled / disabled / list changed / intercept rule added or removed), then statements from the
+    old session (simple, extended, in a new transaction).  Model: coq/Plugin/Model.v section E (settings are refreshed when a
+    message arrives, c3cef0c) = the property: every statement is judged by the NEW file.  The cases are the regression inputs
+    of C19-reload-stale-settings: the old behaviour is a counterexample."""
+    from props import wirelib as W
+    ok, blog, bins = vlib.cargo_build(["wire"])
+    progs = reload_programs(run.rng, run.tier == "quick")
+
+    def toml(k):
+        return W.make_toml(pools={"db": {"opts": {"query_parser_enabled": True}, "plugins": RL_CFGS[k], "users": [{"username": "u", "password": "pw", "pool_size": 1}],
+                                         "shards": [{"database": "db0", "servers": [["b0", "primary"]]}]}})
+    scns, exprs, metas = [], [], []
+    for old, new, pr in progs:
+        steps = [{"op": "connect", "c": "a", "params": {"user": "u", "database": "db"}, "password": "pw", "timeout_ms": 1500},
+                 {"op": "send", "c": "a", "msgs": [{"t": "Q", "sql": "SELECT 0"}]}, {"op": "recv", "c": "a", "until": "Z", "timeout_ms": 2500},
+                 {"op": "write_config", "toml": toml(new)}, {"op": "reload"}]
+        rops, texts = [], []
+        for i, (form, what) in enumerate(pr, 1):
+            t = rl_text(i, what)
+            texts.append(t)
+            if form == "Q":
+                steps.append({"op": "send", "c": "a", "msgs": [{"t": "Q", "sql": t}]})
+            else:
+                steps.append({"op": "send", "c": "a", "msgs": [{"t": "P", "name": "", "sql": t, "types": []}, {"t": "B", "portal": "", "name": "", "fmts": [], "params": [], "rfmts": []},
+                                                                {"t": "E", "portal": "", "max": 0}, {"t": "S"}]})
+            steps.append({"op": "recv", "c": "a", "until": "Z", "timeout_ms": 2500})
+            rops.append("%s %s %s" % ("RQ" if form == "Q" else "RBatch", coq_verdict(rl_verdict(old, what)), coq_verdict(rl_verdict(new, what))))
+        scns.append({"backends": [{"name": "b0"}], "toml": toml(old), "steps": steps})
+        exprs.append("rrun true [RReload; %s]" % "; ".join(rops))
+        metas.append((old, new, pr, texts))
+    vals = vlib.coq_eval("c19_reload", PRE, exprs, shard=60)
+    results = W.run_scenarios(bins["wire"], scns)
+    n = 0
+    for (old, new, pr, texts), v, res, sc in zip(metas, vals, results, scns):
+        n += 1
+        st["reload"] += 1
+        if "harness_error" in res or "start_error" in res:
+            run.broken.append("wire harness (reload family): %s" % (res.get("harness_error") or res.get("start_error")))
+            return n
+        model = [("fwd",) if o == "OFwd" else (("deny", o[1]) if o[0] == "ODeny" else ("icpt", o[1])) for o in pcoq(v)[1:]]
+        want = [{"Allow": ("fwd",), "Deny": ("deny",), "Intercept": ("icpt",)}[rl_verdict(new, w)[0]] + tuple(rl_verdict(new, w)[1:]) for _, w in pr]
+        obs = reload_observe(res, texts)
+        for o in obs:
+            st["reload_outcomes"][o[0]] = st["reload_outcomes"].get(o[0], 0) + 1
+        run.cov["traces_validated_against_impl"] += 1
+        st["distinct"].add(("reload", old, new, json.dumps(pr)))
+        inp = {"old_plugins": RL_CFGS[old], "new_plugins": RL_CFGS[new], "statements_after_reload": texts, "forms": [f for f, _ in pr], "steps": sc["steps"], "toml": sc["toml"]}
+        if model != want:
+            run.violation("proof-broken", "the reload model does not follow the new file on %s -> %s %s: model %s, new file %s" % (old, new, texts, model, want),
+                          {"theorem": "c19_reload_follows_new", "input": inp, "model": [list(o) for o in model]}, found_input=False)
+            return n
+        if obs != want:
+            bad = [(t, o, w) for t, o, w in zip(texts, obs, want) if o != w] or [(texts[-1], ("lost",), want[-1])]
+            t, o, w = ([x for x in bad if x[1] == ("fwd",)] or bad)[0]
+            form = "Parse/Bind/Execute/Sync of" if pr[texts.index(t)][0] == "B" else "simple query"
+            run.violation("counterexample", "after a RELOAD from %s to %s the old session's %s %r is %s although the new file says %s (all statements %s: observed %s)" %
+                          ("no plugins" if old == "A" else "plugins " + old, "no plugins" if new == "A" else "plugins " + new, form, t,
+                           {"fwd": "forwarded", "deny": "denied", "icpt": "intercepted", "lost": "unanswered"}[o[0]], w[0], texts, obs),
+                          {"input": inp, "impl": [list(x) for x in obs], "expected": [list(x) for x in want]})
+            return n
+    return n
+
+
 # ----------------------------------------------------------------------------- driver
 def check(run):
     quick = run.tier == "quick"
@@ -1448,7 +1625,7 @@ def check(run):
                 run.violation("proof-broken", "Plugin/Props.v no longer checks; no failing statement found in the search", {"theorem": "Plugin/Props.v", "coq_log": log[-2500:]}, found_input=False)
         return
     st = {"kf": {}, "rejected": 0, "rejected_by_group": {}, "by_group": {}, "by_pos": {}, "distinct": set(), "spellings": set(), "known": {}, "known_samples": {}, "denied": 0,
-          "gaps_closed": set(), "icpt_kinds": {}, "icpt_matched": 0, "seq": 0, "seq_events": {}, "wire": 0, "wire_groups": {}, "wire_forwarded": 0, "wire_followed": {}, "wire_modes": {}}
+          "gaps_closed": set(), "icpt_kinds": {}, "icpt_matched": 0, "seq": 0, "seq_events": {}, "wire": 0, "wire_groups": {}, "wire_forwarded": 0, "wire_followed": {}, "wire_modes": {}, "reload": 0, "reload_outcomes": {}}
     evals = 0
     nt = 1000 if quick else 40000
     cases = gen_table_cases(rng, nt)
@@ -1468,6 +1645,9 @@ def check(run):
     if not run.violations:
         evals += check_wire(run, 120 if quick else 4000, st)
         run.log("wire: %d scenarios, reply groups %s, %d forwarded messages" % (st["wire"], st["wire_groups"], st["wire_forwarded"]))
+    if not run.violations:
+        evals += check_reload(run, st)
+        run.log("reload family: %d scenarios, outcomes %s" % (st["reload"], st["reload_outcomes"]))
     missing_groups = [g for g in REQUIRED_GROUPS if st["by_group"].get(g, 0) == 0]
     if missing_groups and not run.violations:
         run.broken.append("statement groups never accepted by the parser: %s" % missing_groups)
@@ -1485,7 +1665,7 @@ def check(run):
                                      "distinct_spellings": len(st["spellings"]), "expected_deny": st["denied"], "intercept_verdicts": st["icpt_kinds"], "intercept_replies_read": st["icpt_matched"],
                                      "known_finding_hits": st["known"], "gap_shapes_now_reported": sorted(st["gaps_closed"]),
                                      "model_sequences": st["seq"], "model_sequence_events": st["seq_events"],
-                                     "wire_scenarios": st["wire"], "wire_product_sequences": st.get("wire_product", 0), "wire_plugins_section_modes": st.get("wire_modes", {}), "wire_rejections_followed_by_batch_and_query": st.get("wire_followed", {}), "wire_reply_groups": st["wire_groups"], "wire_forwarded_messages": st["wire_forwarded"]}
+                                     "wire_scenarios": st["wire"], "wire_product_sequences": st.get("wire_product", 0), "reload_scenarios": st["reload"], "reload_outcomes": st["reload_outcomes"], "wire_plugins_section_modes": st.get("wire_modes", {}), "wire_rejections_followed_by_batch_and_query": st.get("wire_followed", {}), "wire_reply_groups": st["wire_groups"], "wire_forwarded_messages": st["wire_forwarded"]}
     run.cov["samples"] = [{"kind": "table_access", "sql": c["sql"], "proto": c["proto"], "listed": [b.decode("utf8", "replace") for b in c["listed"]], "real": c.get("real")} for c in cases[:4]] + \
                          [{"kind": "sequence", **(st.get("seq_sample") or {})}]
     if not quick and proof_ok:
@@ -1510,6 +1690,13 @@ def replay(run, path):
     r = json.load(open(path))
     print(json.dumps(r, indent=1)[:4000])
     inp = r.get("input", {})
+    if "statements_after_reload" in inp:      # the reload family: run it again, compare with what the new file says
+        from props import wirelib as W
+        ok, blog, bins = vlib.cargo_build(["wire"])
+        res = W.run_scenario(bins["wire"], {"backends": [{"name": "b0"}], "toml": inp["toml"], "steps": inp["steps"]})
+        obs = reload_observe(res, inp["statements_after_reload"])
+        print("replay: observed %s\n        new file says %s" % (obs, r.get("expected")))
+        return 0 if [list(o) for o in obs] == r.get("expected") else 1
     if "steps" in inp and "toml" in inp:      # a wire scenario: run it again and show both sides
         from props import wirelib as W
         ok, blog, bins = vlib.cargo_build(["wire"])
